@@ -168,6 +168,7 @@ def monC06 : ObsMonitor Obs M6 where
                       | _ => p }
     | .quiesce => some m
     | .probe _ _ => some m
+    | .nilnext _ => some m
 
 /-! ## C07 -/
 
@@ -326,6 +327,7 @@ def monC07 : ObsMonitor Obs M7 where
       | some r => if r.mustCancel && !c then none else some m
       | none => none
     | .advance => some { m with epoch := m.epoch + 1, advanced := true }
+    | .nilnext _ => some m
     | .quiesce =>
       -- (3) every retry owed from an earlier epoch has happened
       if m.advanced && m.owed.any (fun x => x.2 < m.epoch) then none
